@@ -7,7 +7,7 @@ FUNCTIONS = ["PointCloudWriter::{new,add_point,finalize}: bounds bookkeeping and
 ASSUME = [
     "for each concrete prototype shape and symbolic non-NaN values: every Cartesian bound equals the min / max of ITS OWN attribute as a real value (scaled integers after scale and offset), "
     "the bound groups are present exactly for the groups in the prototype, and they are carried unchanged into the descriptor registered by finalize",
-    "1 point per run (bounds = the value; routing of every attribute to ITS OWN bound) plus, in both tiers, a 2-point run over a spherical all-double prototype "
+    "1 point per run (bounds = the value; routing of every attribute to ITS OWN bound) plus, in both tiers, a 2-point run over a spherical all-double prototype and over a row/column/return-index prototype with byte-wide ranges "
     "(min vs max of each spherical attribute told apart; every ordering a symbolic path); thorough adds 0 points and a 2-point run over an xyz-double prototype (min/max over the points, every ordering a symbolic path); "
     "min/max accumulation over any number of points rests on update_min / update_max, decided for all f64 / i64 values (Kani)",
     "default limits equal the declared type range for all four type kinds and all i64 / float limit values (Kani); a caller's override is stored by a plain setter (not checked)",
